@@ -125,6 +125,32 @@ class Ctx:
         }
 
 
+class Retained:
+    """Results a caller keeps: each object handed out by the library is snapshotted at return time and read again later (after further
+    calls on the same and on other inputs).  What a function returned must not change afterwards - a result that a later call rewrites
+    (pooled objects, shared lists) was only right for an instant."""
+
+    def __init__(self, every=5, limit=400):
+        self.items = []
+        self.every = every
+        self.limit = limit
+        self.n = 0
+
+    def keep(self, obj, snap_fn, case, what):
+        self.n += 1
+        if obj is None or self.n % self.every or len(self.items) >= self.limit:
+            return
+        self.items.append((obj, snap_fn, snap_fn(obj), case, what))
+
+    def verify(self, ctx, monitor='oracle:retained'):
+        for obj, fn, snap, case, what in self.items:
+            ctx.mon(monitor)
+            now = fn(obj)
+            if now != snap:
+                ctx.violation('retained-result-changed', dict(case, fn=what, retained=True), {'at_return': snap, 'read_again_later': now})
+        del self.items[:]
+
+
 def assert_repo_tree():
     "The code under observation must be /repo's working tree."
     import emmet
